@@ -45,26 +45,6 @@ ASSUME = [
     "sub-int reps: `%` and unary +/- are excluded from the generated API programs (finding F4, recorded as an observation)",
 ]
 
-# Genuine defects of /repo found by this check and reported to the coordinator; filtered by exact
-# structural match (probe + header), nothing wider.  Remove an entry once it is fixed in /repo or
-# listed in known_findings.json.
-#   F11 (proposed id): the nine headers in au/constants/ have no `#pragma once`, so a translation unit that
-#   includes one of them twice (e.g. through two of the user's own headers) is rejected in the multi-header
-#   packaging (redefinition of detail::<X>Label / <X>Unit / the constant) while the single-file packaging, which
-#   de-duplicates, accepts the same program.
-PENDING_FINDINGS = [
-    {"probe": "double-include", "header": "au/constants/%s.hh" % c} for c in (
-        "avogadro_constant", "boltzmann_constant", "cesium_hyperfine_transition_frequency", "elementary_charge",
-        "luminous_efficacy_540_terahertz", "planck_constant", "reduced_planck_constant", "speed_of_light",
-        "standard_gravity")
-]
-
-
-def is_pending(v):
-    r = v.get("rec", {})
-    return any(all(r.get(k) == w for k, w in p.items()) for p in PENDING_FINDINGS)
-
-
 SCRIPT = os.path.join(vlib.REPO, "tools", "bin", "make-single-file")
 
 HELPER = r'''
@@ -855,8 +835,15 @@ def main(tier, seed):
         violations.append({"what": "check infrastructure failed: %r" % (e,), "class": "infrastructure",
                            "rec": {"kind": "infrastructure", "trace": traceback.format_exc()[-3000:]}, "no_input": True,
                            "broken": "harness"})
-    pending = [v for v in violations if is_pending(v)]
-    violations = [v for v in violations if not is_pending(v)]
+    # observation (never a violation by itself): headers without `#pragma once`; whether that is harmful is decided
+    # by the double-include probe of c20_cxx, which must accept every public header included twice
+    nopragma = [f for f in ex["files"]
+                if not re.search(r"^#pragma once", open(os.path.join(vlib.AU_INC, f)).read(), re.M)]
+    flagged = {v.get("rec", {}).get("header") for v in violations if v.get("rec", {}).get("probe") == "double-include"}
+    observations.append({"probe": "no-pragma-once", "headers": nopragma,
+                         "harmless_this_run": [f for f in nopragma if f not in flagged],
+                         "note": "headers lacking `#pragma once`; harmless iff the double-include probe accepts them "
+                                 "(declaration-only headers such as units/celsius_fwd.hh)"})
     sizes = stats.pop("sizes")
     nontrivial = stats.pop("nontrivial")
     cov = {
@@ -871,12 +858,8 @@ def main(tier, seed):
         "exhaustive": False,
         "distribution": dict(stats, order_sizes={"min": min(sizes) if sizes else 0, "max": max(sizes) if sizes else 0,
                                                  "mean": round(sum(sizes) / max(1, len(sizes)), 1)},
-                             cxx=cxx_stats, observations=observations,
-                             pending_findings=sorted({(v.get("class"), v["what"][:200]) for v in pending})),
+                             cxx=cxx_stats, observations=observations),
     }
-    for c in sorted({v.get("class") for v in pending}):
-        print("PENDING-FINDING: property=%s %s (%d matching case(s) this run)" %
-              (PROP, c, len([v for v in pending if v.get("class") == c])))
     if os.environ.get("C20_KEEP") != "1":
         shutil.rmtree(wd, ignore_errors=True)
     return finish(PROP, tier, seed, t0, proof, cov, violations, ASSUME)
